@@ -533,14 +533,24 @@ _vbi_sampling_par_from_services_log
 		for (i = 0; i < 2; ++i)
 			if (par->first[i] > 0
 			    && par->last[i] > 0) {
-				sp->start[i] = MIN
-					((unsigned int) sp->start[i],
-					 (unsigned int) par->first[i]);
-				sp->count[i] = MAX
-					((unsigned int) sp->start[i]
-					 + sp->count[i],
-					 (unsigned int) par->last[i] + 1)
-					- sp->start[i];
+				unsigned int first;
+				unsigned int end;
+
+				/* The end of the range must be determined
+				   before its start is lowered. */
+				first = par->first[i];
+				end = par->last[i] + 1;
+
+				if (sp->count[i] > 0) {
+					first = MIN (first, (unsigned int)
+						     sp->start[i]);
+					end = MAX (end, (unsigned int)
+						   sp->start[i]
+						   + sp->count[i]);
+				}
+
+				sp->start[i] = first;
+				sp->count[i] = end - first;
 			}
 
 		rservices |= par->id;
